@@ -110,29 +110,7 @@ def run(ctx):
     for f, bb, kind in facts.field_reads(SW, "on_finish"):
         ok = f.id == sw_drop.id
         ctx.ob("C01.3", "on_finish-read|%s" % f.id, "the on_finish sender is used only by the writer's Drop", ok, f.loc(bb))
-    # ... and only after this writer's own turn has come: a writer that is dropped unused (a request answered
-    # with `drop(rq.into_writer())`, or the parser abandoning a drawn writer on an error path) must not release
-    # its successor while its predecessor is still writing
-    f = sw_drop
-    recvs = [bb for bb, t in f.calls() if call_is(t, RECV, "std::sync::mpsc::Receiver::<T>::recv_timeout") and "trigger" in arg_origin_fields(f, t)]
-    none_targets = set()
-    for bb in sorted(f.live_blocks()):
-        sw = switch_on_discr(f, bb)
-        if sw and "trigger" in origin_fields(f.origin_place(sw[0]["pl"])):
-            rv, m, otherwise, rest = sw
-            if "None" in m:
-                none_targets.add(m["None"])
-            elif "None" in rest:
-                none_targets.add(otherwise)
-    passed = {f.normal_target(bb) for bb in recvs}
-    reach = f.reach([0], blocked=passed | none_targets, unwind=False)
-    for f2, bb, t in senders:
-        if f2.id != f.id:
-            continue
-        ok = bool(recvs) and bb not in reach
-        ctx.ob("C01.3", "%s|send-after-own-turn" % f.id,
-               "a writer releases its successor only after its own turn has come (its predecessor finished), even when it is dropped without ever writing",
-               ok, f.loc(bb), None if ok else "Drop sends the successor's token without waiting for this writer's trigger: dropping an unused writer (e.g. `drop(rq.into_writer())`, or the parser abandoning a writer when new_request fails) lets response k+1 overtake response k-1")
+    shared.writer_drop_waits_turn(ctx, "C01.3")
     send_blocks = {bb for f, bb, t in senders if f.id == sw_drop.id}
     rets = sw_drop.returns()
     reach = sw_drop.reach([0], blocked=send_blocks, unwind=False)
